@@ -82,31 +82,33 @@ type PkgObs struct {
 
 // Obs is what one scan produced.
 type Obs struct {
-	Extracts      []*ExtractRec
-	Required      map[string]map[string]bool // extractor -> path -> FileRequired result
-	Pkgs          []PkgObs
-	Status        map[string]plugin.ScanStatusEnum
-	Reason        map[string]string
-	NStatus       int
-	Returned      bool
-	Overall       plugin.ScanStatusEnum
-	OverallMsg    string
-	Panic         string // panic value, "" if none
-	PanicExt      string
-	PanicSite     string
-	PanicStack    string
-	Budget        string // "" or "<kind>:<extractor>"
-	Hang          bool
-	HangExt       string
-	HangKind      string // watchdog | runaway-memory
-	CancelOnFired bool
-	HistFP        string
-	Events        int
-	Fired         map[string]int
-	OpenLeak      int
-	Enabled       []string
-	TreeBytes     int
-	Nodes         int
+	Extracts   []*ExtractRec
+	Required   map[string]map[string]bool // extractor -> path -> FileRequired result
+	Pkgs       []PkgObs
+	Status     map[string]plugin.ScanStatusEnum
+	Reason     map[string]string
+	NStatus    int
+	Returned   bool
+	Overall    plugin.ScanStatusEnum
+	OverallMsg string
+	Panic      string // panic value, "" if none
+	PanicExt   string
+	PanicSite  string
+	PanicStack string
+	// an Extract call panicked but the engine contained it (recover around Extract)
+	ExtPanic, ExtPanicExt, ExtPanicSite, ExtPanicStack string
+	Budget                                             string // "" or "<kind>:<extractor>"
+	Hang                                               bool
+	HangExt                                            string
+	HangKind                                           string // watchdog | runaway-memory
+	CancelOnFired                                      bool
+	HistFP                                             string
+	Events                                             int
+	Fired                                              map[string]int
+	OpenLeak                                           int
+	Enabled                                            []string
+	TreeBytes                                          int
+	Nodes                                              int
 	// AfterExtract, if set before the run, is called (on the scan goroutine) after every Extract.
 }
 
@@ -134,6 +136,7 @@ type harness struct {
 	budgetHit    string
 	cancelOnSeen int
 	origPanic    string // first panic seen leaving an Extract call
+	origExt      string // the extractor it left
 	origStack    string
 	origFault    bool   // it was a memory fault (runtime error with an address)
 	progress     string // child mode: file in which the extractor being run is noted
@@ -213,6 +216,7 @@ func (w *wrapped) extract(ctx context.Context, input *filesystem.ScanInput) (inv
 		if r := recover(); r != nil {
 			if _, mine := r.(budgetExceeded); !mine && !scan.IsStepCap(r) {
 				if w.h.origPanic == "" {
+					w.h.origExt = w.Name()
 					w.h.origPanic = fmt.Sprintf("%v", r)
 					_, w.h.origFault = r.(interface{ Addr() uintptr })
 					w.h.origStack = string(debug.Stack())
@@ -502,6 +506,17 @@ wait:
 	}
 	if res == nil {
 		return obs, nil
+	}
+	if obs.Panic == "" && h.origPanic != "" {
+		// an Extract call panicked and the engine contained it: the scan went on, but the
+		// extractor did crash on this content
+		obs.ExtPanic = h.origPanic
+		obs.ExtPanicExt = h.origExt
+		obs.ExtPanicSite = panicSite(h.origStack)
+		if h.origFault {
+			obs.ExtPanicSite = "fatal-fault:" + obs.ExtPanicSite
+		}
+		obs.ExtPanicStack = trimStack(h.origStack, 30)
 	}
 	obs.Returned = true
 	obs.Overall = res.Status.Status
